@@ -7,87 +7,87 @@ ALL = [f"C{i:02d}" for i in range(1, 21)]
 # id -> (category, text, note, technique)
 CLAIMED = {
  "C05": ("exploration",
-   "Generated-input search (rapid) over arbitrary bytes, token sequences, mutated valid programs, malformed strings/numbers and deep nesting, plus native coverage-guided fuzzing in the thorough tier; every input is judged by the explicit C05 oracle (tree xor positioned diagnostic, independent Ln/Col computation, no internal recover, lexer covering invariant). Finds crashes/hangs/position errors on inputs tests never sample; does not prove absence. Also: the same statement repeated 2..1000 times (error-count limits), one error per operand of a long expression, texts of 64 KiB .. 8 MiB each followed by a small parse, a lexer panic on the exported lexer is a violation; every third parse is preceded by a parse of an unrelated malformed text.",
+   "Generated-input search (rapid) over arbitrary bytes, token sequences, mutated valid programs, malformed strings/numbers and deep nesting, plus native coverage-guided fuzzing in the thorough tier; every input is judged by the explicit C05 oracle (tree xor positioned diagnostic, independent Ln/Col computation, no internal recover, lexer covering invariant). Finds crashes/hangs/position errors on inputs tests never sample; does not prove absence. Also: the same statement repeated 2..1000 times (error-count limits), one error per operand of a long expression, texts of 64 KiB .. 8 MiB each followed by a small parse, a lexer panic on the exported lexer is a violation; every third parse is preceded by a parse of an unrelated malformed text. Further: typed literals as slice bounds, names made of continuation bytes, U+2028 / U+2029 and other separator characters.",
    "Trusted: Go toolchain, rapid. Inputs bounded to 4 KiB (fuzz) / nesting depth 2000. A hang surfaces as the go test timeout (exit 2, inconclusive) with the heartbeat input saved.",
    "property-based testing (rapid) + coverage-guided fuzzing (go test -fuzz) against a validity oracle"),
 
  "C06": ("exploration",
-   "Round-trip property over generated syntax trees: exhaustive operator-pair table (every ordered pair of 14 binary operators, both nestings, unary combinations) plus random statement/expression trees printed with only the parentheses the precedence table requires, under random admissible layouts and with redundant parentheses; the parsed tree must equal the generated one. Reaches every operator pairing and layout position, which the hand-written parser tests sample sparsely. Also: chains of up to 400 operators, nesting of every bracketing construct to depth 60, blocks to depth 40, hexadecimal / upper-case numeric spellings, integer-boundary floats; every third parse is preceded by a parse of an unrelated malformed text.",
+   "Round-trip property over generated syntax trees: exhaustive operator-pair table (every ordered pair of 14 binary operators, both nestings, unary combinations) plus random statement/expression trees printed with only the parentheses the precedence table requires, under random admissible layouts and with redundant parentheses; the parsed tree must equal the generated one. Reaches every operator pairing and layout position, which the hand-written parser tests sample sparsely. Also: chains of up to 400 operators, nesting of every bracketing construct to depth 60, blocks to depth 40, hexadecimal / upper-case numeric spellings, integer-boundary floats; every third parse is preceded by a parse of an unrelated malformed text. Further: empty statements at the start of blocks, identifiers that begin or end like reserved words, octal spellings.",
    "Trusted: the harness printer/converter (self-consistent by construction: a printer bug shows up as a violation on the unchanged tree), the precedence rows for `in` and unary operators taken from gram.y because the reference omits them. Depth <= 5, <= 6 statements per program.",
    "property-based round-trip testing (print -> parse -> compare) with rapid, plus exhaustive enumeration of the operator-pair table"),
  "C07": ("exploration",
-   "Exhaustive enumeration of all literal bodies up to length 5 (quick) / 6 (thorough) over a 12-character hostile alphabet in the five quoting forms, random escape-fragment spellings, value round trips through four independent encoders, integer boundaries at every power of two/ten, random float64 bit patterns, all keyword case patterns; judged by a reference decoder written from Go's escape rules that is itself cross-checked against strconv.Unquote. Also: bodies of 255..70000 bytes in all five forms, numerals of up to 1000 digits, floats at the integer boundaries, zeros and underflows under one, two and three signs and parentheses (bit-exact, so the sign of zero counts).",
+   "Exhaustive enumeration of all literal bodies up to length 5 (quick) / 6 (thorough) over a 12-character hostile alphabet in the five quoting forms, random escape-fragment spellings, value round trips through four independent encoders, integer boundaries at every power of two/ten, random float64 bit patterns, all keyword case patterns; judged by a reference decoder written from Go's escape rules that is itself cross-checked against strconv.Unquote. Also: bodies of 255..70000 bytes in all five forms, numerals of up to 1000 digits, floats at the integer boundaries, zeros and underflows under one, two and three signs and parentheses (bit-exact, so the sign of zero counts). Further: CR in the alphabet, numerals directly followed by operators, leading-zero numerals, literals preceded by context statements holding the other quoting forms.",
    "Trusted: strconv.ParseFloat/Unquote as the numeric/escape reference. Weak oracle (rejected or exact) where the reference does not define the form (quotes inside triple-quoted bodies, raw NUL, empty back-quoted identifier).",
    "exhaustive bounded enumeration + property-based testing (rapid) against a reference decoder; native fuzzing of literal bodies in the thorough tier"),
  "C17": ("exploration",
-   "Tree positions: every position field of trees parsed from generated programs (token offsets known to the printer) under multi-byte/CRLF/comment layouts; error positions: a (fault x wrapper) table and random nestings of injected load-time and run-time faults, each error position must lie inside the faulty statement and have consistent Ln/Col; lookup routines: exhaustive over all texts of length <= 7 over {a, LF, é} x all offsets; error chains: rendering, JSON round trip, copy isolation for random chains of 1..4 positions. Also: texts with 70000 lines / 70000-column lines / CR LF / thousands of multi-byte characters (parse, load and run errors at the end, lookup routines at sampled offsets), identifiers that start with U+FEFF and other format characters; every third parse is preceded by a parse of an unrelated malformed text.",
+   "Tree positions: every position field of trees parsed from generated programs (token offsets known to the printer) under multi-byte/CRLF/comment layouts; error positions: a (fault x wrapper) table and random nestings of injected load-time and run-time faults, each error position must lie inside the faulty statement and have consistent Ln/Col; lookup routines: exhaustive over all texts of length <= 7 over {a, LF, é} x all offsets; error chains: rendering, JSON round trip, copy isolation for random chains of 1..4 positions. Also: texts with 70000 lines / 70000-column lines / CR LF / thousands of multi-byte characters (parse, load and run errors at the end, lookup routines at sampled offsets), identifiers that start with U+FEFF and other format characters; every third parse is preceded by a parse of an unrelated malformed text. Further: a parse-error position table, errors rendered while their chain is still growing, chains of up to 9 positions, lookup alphabets with CR and U+2028.",
    "Trusted: the harness printer's offsets. Whether a fault must be reported at all is left to C02/C04/C08/C11; C17 checks where it is reported.",
    "property-based testing with a position-recording printer as oracle; exhaustive enumeration for the lookup routines"),
 
  "C01": ("exploration",
-   "Random hostile programs over the whole grammar (ill-typed operands, extreme constants, extreme/reversed slice bounds, bad index keys, object-less index, value-less constructs in value position, every builtin in every accepted argument shape, typed uses of point keys after builtins changed them) crossed with random points (all field types, non-UTF-8 strings, tags overlapping identifiers); thorough adds native coverage-guided fuzzing of source text through the real loader. Oracle: Run returns, any error is a positioned script error. The search space is far beyond what unit tests sample; a crash needs one witness. Also: sequences of the key-moving builtins (rename, add_key, drop_key, set_tag, cast, set_measurement, default_time) followed by type-directed uses of the keys; every run is preceded by an unrelated failing / cancelled run of another script on the same pooled task.",
+   "Random hostile programs over the whole grammar (ill-typed operands, extreme constants, extreme/reversed slice bounds, bad index keys, object-less index, value-less constructs in value position, every builtin in every accepted argument shape, typed uses of point keys after builtins changed them) crossed with random points (all field types, non-UTF-8 strings, tags overlapping identifiers); thorough adds native coverage-guided fuzzing of source text through the real loader. Oracle: Run returns, any error is a positioned script error. The search space is far beyond what unit tests sample; a crash needs one witness. Also: sequences of the key-moving builtins (rename, add_key, drop_key, set_tag, cast, set_measurement, default_time) followed by type-directed uses of the keys; every run is preceded by an unrelated failing / cancelled run of another script on the same pooled task. Further: collections that merely hold a self-containing one, zero-argument builtin calls in conditions of empty branches, the precision / format arguments of datetime in other letter cases.",
    "Resource exhaustion (exponential string growth, unbounded loops) is excluded by a model-side size budget and a counting signal; nesting depth bounded. No claim about programs outside the generator's shapes.",
    "property-based testing (rapid) + coverage-guided fuzzing with a no-crash / well-formed-error oracle"),
  "C02": ("exploration",
-   "Exhaustive operator x operand-pair table (14 binary operators x 33^2 ordered operand pairs x literal/variable/point-key delivery, compound assignments, unary operators, short-circuit table with probes) plus random expression trees with pval() probes; every outcome is compared with a reference model of the operator semantics in value, Go type, evaluation order/count and error presence, both through the probe and through the field written by add_key. Also: one operator node evaluated in a loop over operands of changing types, un-parenthesised chains of 1..300 operators (each operand evaluated once, in order), operand values with nil-valued maps and 4-byte characters; after the first run the same loaded script is run again on an equal point, on a point whose fields changed type, and an earlier case's script is re-run (history checks of sem.Decide).",
+   "Exhaustive operator x operand-pair table (14 binary operators x 33^2 ordered operand pairs x literal/variable/point-key delivery, compound assignments, unary operators, short-circuit table with probes) plus random expression trees with pval() probes; every outcome is compared with a reference model of the operator semantics in value, Go type, evaluation order/count and error presence, both through the probe and through the field written by add_key. Also: one operator node evaluated in a loop over operands of changing types, un-parenthesised chains of 1..300 operators (each operand evaluated once, in order), operand values with nil-valued maps and 4-byte characters; after the first run the same loaded script is run again on an equal point, on a point whose fields changed type, and an earlier case's script is re-run (history checks of sem.Decide). Further: compound assignment on point-only keys, operands retyped in nested blocks, floats of value 2^63 under a sign.",
    "Rows the reference leaves open accept either alternative (listed in DESIGN.md 3.2); a change between two accepted alternatives is not detected by design. Errors compared by presence and location, not text.",
    "exhaustive table enumeration + model-based property testing (rapid) against a reference interpreter"),
  "C03": ("exploration",
-   "Random programs of nested branches, all 8 for shapes, for-in over list/string/map/point values, break/continue, assignments to new/outer/shadowing names overlapping point keys, with probes after statements; the ordered probe trace, error presence/location and final point must equal the reference model's. Plus an exhaustive truthiness table (33 values x if/elif/for/point-key conditions). Also: compound assignment on point keys, blocks nested to depth 40, loops of up to 70000 passes, strings with 4-byte characters, observable loop clauses; history checks as in C02.",
+   "Random programs of nested branches, all 8 for shapes, for-in over list/string/map/point values, break/continue, assignments to new/outer/shadowing names overlapping point keys, with probes after statements; the ordered probe trace, error presence/location and final point must equal the reference model's. Plus an exhaustive truthiness table (33 values x if/elif/for/point-key conditions). Also: compound assignment on point keys, blocks nested to depth 40, loops of up to 70000 passes, strings with 4-byte characters, observable loop clauses; history checks as in C02. Further: loop-clause scope cases, nested map loops (compared as multisets), a point key read right after a builtin rewrote it.",
    "Loops terminate by construction (counter bounded <= 3, nesting <= 3); programs whose outcome depends on map iteration order are discarded (counted).",
    "model-based property testing (rapid) with trace comparison"),
  "C04": ("exploration",
-   "Exhaustive slices (17 subjects x 22^3 bounds, 16 syntactic/delivery forms; quick: all extreme-bound cases + 1/8 stride), exhaustive index paths of depth<=3 over two nested shapes x 19 keys x {read, write, compound write, write through alias}, random alias/mutation/snapshot programs incl. load_json values; compared with the reference model (CPython slice algorithm, reference sharing, add_key JSON snapshot). Also: a collection literal evaluated repeatedly (loops, second run) yields a fresh collection each time; subjects of 31..1000 elements with bounds around both ends; history checks as in C02.",
+   "Exhaustive slices (17 subjects x 22^3 bounds, 16 syntactic/delivery forms; quick: all extreme-bound cases + 1/8 stride), exhaustive index paths of depth<=3 over two nested shapes x 19 keys x {read, write, compound write, write through alias}, random alias/mutation/snapshot programs incl. load_json values; compared with the reference model (CPython slice algorithm, reference sharing, add_key JSON snapshot). Also: a collection literal evaluated repeatedly (loops, second run) yields a fresh collection each time; subjects of 31..1000 elements with bounds around both ends; history checks as in C02. Further: a list written to while it is iterated, documents decoded twice, block-local collections that stay reachable after their block, nil-valued bounds in every position and delivery.",
    "Non-ASCII string slices accept byte-wise or rune-wise results (reference silent); nil-valued bounds accept omitted-or-error.",
    "bounded exhaustive enumeration + model-based property testing (rapid)"),
 
  "C09": ("exploration",
-   "Exhaustive enumeration of all script sets of 1..3 scripts (each valid with 0..2 use() calls to any member, itself or a missing name, or unparsable, or check-failing) under every insertion order and repeated loads, 4-script sets sampled (quick) / complete (thorough), compared with a graph model: verdict partition, binding of every accepted use call, exact error chains. The visiting order (map iteration) is reached through insertion order x repetition. Also: use chains of 5..40 scripts with six endings and wide fans, use calls inside loop bodies after conditional break / continue and in else branches, check failures whose own error has 1..6 positions, three unparsable forms.",
+   "Exhaustive enumeration of all script sets of 1..3 scripts (each valid with 0..2 use() calls to any member, itself or a missing name, or unparsable, or check-failing) under every insertion order and repeated loads, 4-script sets sampled (quick) / complete (thorough), compared with a graph model: verdict partition, binding of every accepted use call, exact error chains. The visiting order (map iteration) is reached through insertion order x repetition. Also: use chains of 5..40 scripts with six endings and wide fans, use calls inside loop bodies after conditional break / continue and in else branches, check failures whose own error has 1..6 positions, three unparsable forms. Further: names that contain one another, names with directories and equal base names, names with formatter characters; the exported linker fed with scripts of an earlier load and a replaced callee; Check called again on linked scripts.",
    "Visiting orders are sampled, not enumerated (no hook). For cycles the first chain entry may be the rejected script at one of its use calls or the closing call.",
    "bounded exhaustive enumeration of configurations against a reference graph model (plus rapid sampling for 4-script sets)"),
  "C13": ("exploration",
-   "Random call trees (depth <= 3, 2..4 scripts) whose bodies share one name pool and the point, with exit() and failing statements inserted at sampled statement positions of every script; ordered probe trace, final point and the exact error chain (failing statement in the callee, then every use call site outward) are compared with the reference model. Also: use chains of depth 5..40 ending in exit(), perr() or an ill-typed statement; history checks as in C02 (a loaded script set is run several times).",
+   "Random call trees (depth <= 3, 2..4 scripts) whose bodies share one name pool and the point, with exit() and failing statements inserted at sampled statement positions of every script; ordered probe trace, final point and the exact error chain (failing statement in the callee, then every use call site outward) are compared with the reference model. Also: use chains of depth 5..40 ending in exit(), perr() or an ill-typed statement; history checks as in C02 (a loaded script set is run several times). Further: exit() inside value statements, assignment sources, conditions and arguments; four script-name schemes.",
    "Call graphs are acyclic by construction; loading goes through ParseScript. Insert positions are sampled (6 per set quick, 16 thorough), not all enumerated.",
    "model-based property testing (rapid) over script sets"),
  "C14": ("fault_enumeration",
-   "For each generated loop-bearing program the cancellation signal is made to fire at every poll index k (the harness owns the signal): the run must return nil, its probe trace must be a prefix of the uninterrupted trace, and no probe may execute after the poll that returned true; 11 non-terminating programs (empty bodies, nested, inside callees) x k<=60/200, both interpreters. Also: the flag raised from inside a builtin (during the n-th probe call, n up to 65537) - no probe call may follow; poll indices far into the run (to 40009); loops over a map that the body grows (order-free part of the oracle); loop clauses and conditions that leave probe records.",
+   "For each generated loop-bearing program the cancellation signal is made to fire at every poll index k (the harness owns the signal): the run must return nil, its probe trace must be a prefix of the uninterrupted trace, and no probe may execute after the poll that returned true; 11 non-terminating programs (empty bodies, nested, inside callees) x k<=60/200, both interpreters. Also: the flag raised from inside a builtin (during the n-th probe call, n up to 65537) - no probe call may follow; poll indices far into the run (to 40009); loops over a map that the body grows (order-free part of the oracle); loop clauses and conditions that leave probe records. Further: a typed-nil signal with a nil-receiver method, the flag raised inside the right side of an assignment, programs without a three-clause loop (the signal must be polled at all), two overlapping runs with their own signals and one shared option slice.",
    "Promptness is measured in polls/probe calls, not time; a 20 s watchdog is the only clock and only matters for empty-bodied infinite loops. Fault points are the signal's polls, i.e. the interpreter's own poll sites.",
    "fault enumeration over the poll index of a harness-owned cancellation signal, on rapid-generated programs"),
  "C18": ("exploration",
-   "Exhaustive (value-less construct x consuming position x predecessor) table (7 x 27 x 7) and random v2 programs with multi-assignment, swaps and multi-value functions, compared with the reference model in the v2 dialect; programs inside the common language are additionally run on v1 and must give the same trace. Also: v2 loop-scope table (a body-local name read in a later pass), v2 slice-copy table (a write through a slice or its source is not visible in the other), multi-assignment with element targets and aliases; history checks as in C02.",
+   "Exhaustive (value-less construct x consuming position x predecessor) table (7 x 27 x 7) and random v2 programs with multi-assignment, swaps and multi-value functions, compared with the reference model in the v2 dialect; programs inside the common language are additionally run on v1 and must give the same trace. Also: v2 loop-scope table (a body-local name read in a later pass), v2 slice-copy table (a write through a slice or its source is not visible in the other), multi-assignment with element targets and aliases; history checks as in C02. Further: inner loops left by break after the body-local assignment, v2 index paths of depth 1..3 with absent keys, loop-clause scope cases.",
    "v2 builtins come from the harness's function table and read their arguments through GetParam, like real v2 builtins.",
    "exhaustive table + model-based and differential (v1 vs v2) property testing (rapid)"),
  "C19": ("exploration",
-   "All 3616 parameter lists of length <= 3 (and, thorough, all 50625 of length 4) are validated against a reference validator; every valid list is crossed with all 781 call shapes of <= 4 arguments (thorough: <= 5) and the values received through GetParam are compared with a reference binder; typed getters with well/ill-typed arguments. Also: several calls in one run - nested in each other's arguments and in sequence - with values kept by reference and compared at the end of the run, nil arguments, default factories returning fresh collections that the callee writes to, 8..100 parameters and up to 300 variadic arguments.",
+   "All 3616 parameter lists of length <= 3 (and, thorough, all 50625 of length 4) are validated against a reference validator; every valid list is crossed with all 781 call shapes of <= 4 arguments (thorough: <= 5) and the values received through GetParam are compared with a reference binder; typed getters with well/ill-typed arguments. Also: several calls in one run - nested in each other's arguments and in sequence - with values kept by reference and compared at the end of the run, nil arguments, default factories returning fresh collections that the callee writes to, 8..100 parameters and up to 300 variadic arguments. Further: script variables spelled like parameters stay untouched, one call of the script made unbindable must reject the load wherever it sits, call statements placed after a conditional continue / break, Check called again before the run.",
    "Names from {a,b,c,1x,\"\"}; argument values are integer literals.",
    "exhaustive enumeration against a reference binder, plus rapid sampling of longer lists/calls"),
 
  "C08": ("exploration",
-   "Generated valid base programs are accepted by both loaders; then every (expression slot, offender) pair - 59 offender kinds: unregistered function, each builtin's argument-rule violations, non-string map-key literals; break/continue at every statement position outside loops - is inserted (quick: a random 1/8 of the pairs per base program, thorough: all) and must be rejected by ParseScript and ParseV2 with an error pointing inside the offender; random v2 function tables with CheckPassParam checkers and binding violations; generated statically-valid builtin programs are never rejected. Also: the offender under 1..48 enclosing calls / literals / parentheses, the same name and text loaded under function tables that lack a used function in the call table, the check table or both (in every order relative to an accepting load), named-argument forms that hide a missing required parameter.",
+   "Generated valid base programs are accepted by both loaders; then every (expression slot, offender) pair - 59 offender kinds: unregistered function, each builtin's argument-rule violations, non-string map-key literals; break/continue at every statement position outside loops - is inserted (quick: a random 1/8 of the pairs per base program, thorough: all) and must be rejected by ParseScript and ParseV2 with an error pointing inside the offender; random v2 function tables with CheckPassParam checkers and binding violations; generated statically-valid builtin programs are never rejected. Also: the offender under 1..48 enclosing calls / literals / parentheses, the same name and text loaded under function tables that lack a used function in the call table, the check table or both (in every order relative to an accepting load), named-argument forms that hide a missing required parameter. Further: offenders as surplus values of assignments, pattern aliases across sibling branches, function names in other letter cases, base programs with empty blocks.",
    "Offenders are statically invalid by the documented rules; dynamically wrong programs are not offenders. Base programs to depth 3.",
    "property-based testing (rapid) with exhaustive slot x offender enumeration per generated base program"),
  "C10": ("exploration",
-   "Breadth-first exploration of operation sequences on the real point through the builtins (about 150 operations per state, de-duplicated on the abstract state, depth 3 quick / 4 thorough) plus random sequences of length <= 40; after every step the invariants of the property are checked (script read and Point.Get agree with tags/fields incl. type, no key both tag and field, value kinds, drop/rename postconditions). Also: sequences in which the point is not read back between operations (exhaustive to length 3 / 4 over a reduced operation set, and a drawn two thirds of the steps of the random sequences), two input tags, value-less values (attribute expressions, self-containing lists) as arguments, points with 150 / 1500 keys.",
+   "Breadth-first exploration of operation sequences on the real point through the builtins (about 150 operations per state, de-duplicated on the abstract state, depth 3 quick / 4 thorough) plus random sequences of length <= 40; after every step the invariants of the property are checked (script read and Point.Get agree with tags/fields incl. type, no key both tag and field, value kinds, drop/rename postconditions). Also: sequences in which the point is not read back between operations (exhaustive to length 3 / 4 over a reduced operation set, and a drawn two thirds of the steps of the random sequences), two input tags, value-less values (attribute expressions, self-containing lists) as arguments, points with 150 / 1500 keys. Further: captures written by grok (a capture named like the message alias), every output key read back, non-finite casts, input fields of every Go number kind at the edges of its range.",
    "State space bounded to 5 keys and 8 value kinds; de-duplication uses the exported Meta map only to distinguish internal states.",
    "stateful property-based testing: bounded exhaustive BFS over operation sequences + rapid random sequences, invariant oracle"),
  "C11": ("exploration",
-   "Complete cross product builtin (15) x argument shape (5) x subject situation (6) x subject value (14) with per-builtin call variants (about 10 000 cells), plus random compositions; the whole final point, stdout, returned value and error presence are compared with reference models of the builtins written from fn.md. Also: argument tables - replace (20 patterns x 14 replacement templates x subjects), trim cut sets, strfmt verbs x argument kinds, cast over 60 numeric-looking / boolean-looking subjects x types, nine subject classes (4-byte characters, invalid UTF-8, NUL, 70000 bytes) x 12 calls; history checks as in C02.",
+   "Complete cross product builtin (15) x argument shape (5) x subject situation (6) x subject value (14) with per-builtin call variants (about 10 000 cells), plus random compositions; the whole final point, stdout, returned value and error presence are compared with reference models of the builtins written from fn.md. Also: argument tables - replace (20 patterns x 14 replacement templates x subjects), trim cut sets, strfmt verbs x argument kinds, cast over 60 numeric-looking / boolean-looking subjects x types, nine subject classes (4-byte characters, invalid UTF-8, NUL, 70000 bytes) x 12 calls; history checks as in C02. Further: load_json documents (written to and decoded again; with trailing brackets and other garbage).",
    "spf13/cast, fmt, strings, regexp, net/url, encoding/json are trusted as the documented conversion primitives.",
    "exhaustive cross-product enumeration + model-based property testing (rapid)"),
  "C12": ("exploration",
-   "Random grok programs with add_pattern definitions and grok calls scattered over nested blocks (visible and invisible references, typed captures, trim_space, all subject situations), datetime over the documented layout table, default_time over 16 layouts x 14 zone arguments x subject situations, xml over generated documents x XPath queries, sql_cover over generated SQL and garbage; compared with a reference that applies the same third-party engines under the harness's own lexical scope / lookup / destination model. Also: pattern names redefined in the same block and shadowed in nested blocks, expressions with up to 100 captures, alias chains to depth 40, subjects of 70000 bytes, house layouts with negative offsets and one-digit hours, XML documents preceded by a byte order mark / text / declarations, SQL with backslashes, comments holding quotes and token soup; history checks as in C02.",
+   "Random grok programs with add_pattern definitions and grok calls scattered over nested blocks (visible and invisible references, typed captures, trim_space, all subject situations), datetime over the documented layout table, default_time over 16 layouts x 14 zone arguments x subject situations, xml over generated documents x XPath queries, sql_cover over generated SQL and garbage; compared with a reference that applies the same third-party engines under the harness's own lexical scope / lookup / destination model. Also: pattern names redefined in the same block and shadowed in nested blocks, expressions with up to 100 captures, alias chains to depth 40, subjects of 70000 bytes, house layouts with negative offsets and one-digit hours, XML documents preceded by a byte order mark / text / declarations, SQL with backslashes, comments holding quotes and token soup; history checks as in C02. Further: default pattern names redefined in a block, capture names that collide with keys or the message alias, precision spellings.",
    "grok, dateparse, xmlquery, obfuscate are trusted engines; process TZ=UTC.",
    "model-based property testing (rapid) with the engines as oracles, round-trip for times"),
  "C15": ("exploration",
-   "A generated pool of parse/load/run operations (48 quick / 300 thorough; succeeding, failing mid-loop, exiting, cancelled at poll k, invalid, check-failing, grok/use) gets its reference results from fresh child processes; random histories (length <= 60 / 400) executed in one process must reproduce each reference result exactly. The pool now contains every template once directly and once as a use() callee, every malformed text and every load error, the same grok text under different alias definitions, literals that are written through; histories draw a category first and repeat earlier operations of the same history.",
+   "A generated pool of parse/load/run operations (48 quick / 300 thorough; succeeding, failing mid-loop, exiting, cancelled at poll k, invalid, check-failing, grok/use) gets its reference results from fresh child processes; random histories (length <= 60 / 400) executed in one process must reproduce each reference result exactly. The pool now contains every template once directly and once as a use() callee, every malformed text and every load error, the same grok text under different alias definitions, literals that are written through; histories draw a category first and repeat earlier operations of the same history. Further: stateful-engine operations (SQL subjects, zone arguments, layouts, documents) each once, loads failing inside loop bodies, parse errors on back-quoted and triple-quoted tokens.",
    "Child = same binary re-executed; points go through the point pool; single goroutine so pooled objects are handed back to the next operation.",
    "property-based testing of histories (rapid) with a differential oracle: fresh-process result vs. in-history result"),
  "C16": ("exploration",
-   "Race-detector build; rapid-generated scenarios of 2..16 goroutines mixing parsers and runners of shared loaded scripts (grok, add_pattern, use, builtins) with generated start offsets, repeated 20x under GOMAXPROCS 2/4/16; any detector report or any result differing from the sequential result is a violation. Also: goroutines that load whole script sets (alias definitions at top level, cycles, errors) concurrently with parses and runs, parses of sources with escape-laden string literals (results compared with the literal values), scripts that write into collection literals.",
+   "Race-detector build; rapid-generated scenarios of 2..16 goroutines mixing parsers and runners of shared loaded scripts (grok, add_pattern, use, builtins) with generated start offsets, repeated 20x under GOMAXPROCS 2/4/16; any detector report or any result differing from the sequential result is a violation. Also: goroutines that load whole script sets (alias definitions at top level, cycles, errors) concurrently with parses and runs, parses of sources with escape-laden string literals (results compared with the literal values), scripts that write into collection literals. Further: the concurrent phase runs before the sequential references are computed (lazily initialised tables are first touched under concurrency), generated sets naming unseen time zones, keywords in unseen letter-cases, dotted key names, a failing replace reached through use().",
    "Schedules are not enumerated: the detector finds unsynchronised conflicting accesses on executed paths; atomicity violations built from synchronised accesses are visible only through result comparison.",
    "randomised concurrency stress under the Go race detector with a sequential-equivalence oracle (rapid-generated scenarios)"),
  "C20": ("exploration",
-   "The CLI binary is rebuilt and run as a subprocess on generated (script set, input, mode, format) cases; its output block is compared with what the library yields for the same script and input (line protocol text exactly, JSON structurally with exact numbers, time exactly or within the run window), error cases must print the library's error text and no block. Also: nil-valued and empty values, script names with dots, sub-directories holding namesakes of workspace scripts, inputs of 4 KiB .. 1 MiB.",
+   "The CLI binary is rebuilt and run as a subprocess on generated (script set, input, mode, format) cases; its output block is compared with what the library yields for the same script and input (line protocol text exactly, JSON structurally with exact numbers, time exactly or within the run window), error cases must print the library's error text and no block. Also: nil-valued and empty values, script names with dots, sub-directories holding namesakes of workspace scripts, inputs of 4 KiB .. 1 MiB. Further: a selected script that does not exist, empty / comment-only / partly malformed line-protocol inputs, use() in alternative spellings, CR LF inside literals of script files, values with HTML-sensitive characters and literal backslash-u sequences.",
    "One subprocess per case; the measurement given to a text input is compared only when the script sets it.",
    "differential property-based testing (rapid): CLI subprocess vs. library API"),
 }
